@@ -47,6 +47,17 @@ impl SysSpec {
                 }
             }
         }
+        // "-revsyms": the symbols exist in the context before the system is assembled, created in the REVERSE of
+        // their declaration order (states last-to-first, then inputs last-to-first): reference order and declaration
+        // order of inputs / states are unrelated, as after parsing a second design into a used context
+        if self.name.contains("-revsyms") {
+            for st in self.states.iter().rev() {
+                T::Sym(st.name.clone(), st.ty).build(ctx);
+            }
+            for (n, ty) in self.inputs.iter().rev() {
+                T::Sym(n.clone(), *ty).build(ctx);
+            }
+        }
         let mut sys = TransitionSystem::new(self.name.clone());
         let mut inputs = vec![];
         for (n, ty) in self.inputs.iter() {
@@ -851,6 +862,44 @@ pub fn corner_extras() -> Vec<SysSpec> {
     out.push(mk("X-falsebad", vec![("b1", 1)], vec![st("a2", 2, Some(l(2, 0)), Some(b(Bin::Add, a(), T::ZExt(1, Box::new(f())))))], vec![l(1, 0), b(Bin::Eq, a(), l(2, 2))], vec![]));
     out.push(mk("X-falsebad", vec![], vec![st("a2", 2, Some(l(2, 0)), Some(inc(a())))], vec![b(Bin::Eq, a(), l(2, 3)), l(1, 0), b(Bin::Ugt, a(), l(2, 1))], vec![]));
     out.push(mk("X-falsebad", vec![("b1", 1)], vec![st("a2", 2, Some(l(2, 0)), Some(inc(a())))], vec![b(Bin::And, f(), T::not(f())), l(1, 0), b(Bin::And, f(), b(Bin::Eq, a(), l(2, 1)))], vec![]));
+    // a constant register (next = itself) with an init value that guards the way to the bad state: under the
+    // OTHER value of the constant the bad state would be reachable; a reachable state continues towards bad only then
+    {
+        let cc = || s("c1", 1);
+        let x = || s("a2", 2);
+        let cst = |init: u64| StateSpec { name: "c1".into(), ty: Ty::Bv(1), init: Some(l(1, init)), next: Some(cc()) };
+        let walk = |guard: T| T::ite(b(Bin::Eq, x(), l(2, 0)), l(2, 1), T::ite(b(Bin::Eq, x(), l(2, 1)), T::ite(guard, l(2, 2), l(2, 1)), x()));
+        // guard closed (safe), guard open (unsafe at depth 2), guard closed with a longer approach
+        out.push(SysSpec { name: "X-constguard".into(), inputs: vec![], states: vec![cst(0), st("a2", 2, Some(l(2, 0)), Some(walk(cc())))], outputs: vec![], bads: vec![b(Bin::Eq, x(), l(2, 2))], constraints: vec![] });
+        out.push(SysSpec { name: "X-constguard".into(), inputs: vec![], states: vec![cst(1), st("a2", 2, Some(l(2, 0)), Some(walk(cc())))], outputs: vec![], bads: vec![b(Bin::Eq, x(), l(2, 2))], constraints: vec![] });
+        out.push(SysSpec { name: "X-constguard".into(), inputs: vec![("b1".into(), Ty::Bv(1))], states: vec![st("a2", 2, Some(l(2, 0)), Some(walk(b(Bin::And, cc(), f())))), cst(0)], outputs: vec![], bads: vec![b(Bin::Eq, x(), l(2, 2))], constraints: vec![] });
+        out.push(SysSpec { name: "X-constguard".into(), inputs: vec![], states: vec![cst(1), st("a2", 2, Some(l(2, 0)), Some(walk(T::not(cc()))))], outputs: vec![], bads: vec![b(Bin::Eq, x(), l(2, 2))], constraints: vec![] });
+    }
+    // irregular transition structure: a 16-state lookup table over two registers (3 bits + 1 bit, the table indexed
+    // by their concatenation), bad states 8 steps deep and unreachable ones; index rotations of one table
+    {
+        let table: [u64; 16] = [4, 5, 5, 6, 3, 15, 10, 12, 15, 13, 8, 12, 9, 15, 0, 11];
+        let a3 = || s("a3", 3);
+        let b1 = || s("c1", 1);
+        let idx = || b(Bin::Concat, b1(), a3());
+        for (rot, bad) in [(0usize, 12u64), (0, 7), (3, 12), (5, 2), (0, 14)] {
+            let mut lookup = l(4, table[(15 + rot) % 16]);
+            for k in (0..15).rev() {
+                lookup = T::ite(b(Bin::Eq, idx(), l(4, k as u64)), l(4, table[(k + rot) % 16]), lookup);
+            }
+            out.push(SysSpec {
+                name: "X-table".into(),
+                inputs: vec![],
+                states: vec![
+                    StateSpec { name: "a3".into(), ty: Ty::Bv(3), init: Some(l(3, 0)), next: Some(T::Slice(2, 0, Box::new(lookup.clone()))) },
+                    StateSpec { name: "c1".into(), ty: Ty::Bv(1), init: Some(l(1, 0)), next: Some(T::Slice(3, 3, Box::new(lookup))) },
+                ],
+                outputs: vec![],
+                bads: vec![b(Bin::Eq, idx(), l(4, bad))],
+                constraints: vec![],
+            });
+        }
+    }
     // a constraint that is the literal false (alone, after a satisfiable one, as `x and not x`): the system has no
     // execution at all, whatever the bad states say
     out.push(mk("X-falseconstraint", vec![("b1", 1)], vec![st("a2", 2, Some(l(2, 0)), Some(inc(a())))], vec![b(Bin::Eq, a(), l(2, 1))], vec![l(1, 0)]));
@@ -892,8 +941,24 @@ pub fn corner_extras() -> Vec<SysSpec> {
     out.extend(unnamed);
     // and built into a context that is already populated (see SysSpec::build)
     let offs = offset_variants(&out, 0, 3);
+    let revs = revsyms_variants(&out, 0, 4);
     out.extend(offs);
+    out.extend(revs);
     out
+}
+
+/// copies whose symbols are created in reverse declaration order (see SysSpec::build)
+pub fn revsyms_variants(specs: &[SysSpec], n_first: usize, stride: usize) -> Vec<SysSpec> {
+    specs
+        .iter()
+        .enumerate()
+        .filter(|(i, sp)| (*i < n_first || i % stride == 2) && !sp.name.contains("offset") && sp.inputs.len() + sp.states.len() >= 2)
+        .map(|(_, sp)| {
+            let mut c = sp.clone();
+            c.name = format!("{}-revsyms", sp.name);
+            c
+        })
+        .collect()
 }
 
 /// copies built at an offset in the context (see SysSpec::build): the first `n_first` and every `stride`-th of
